@@ -662,6 +662,18 @@ def k5_cache_invalidation(ctx) -> None:
         for n in walk_local(fi.node):
             if is_self_attr(n, "_pruned_dict") and isinstance(n.ctx, ast.Load) and fi.name != "pruned_dict":
                 ctx.violation("K5", C.stmt_of(n), "raw read of self._pruned_dict outside the pruned_dict property (may be None or stale)")
+    # the pruned dictionary is a defaultdict: looking a class up by subscript *creates* its entry, and membership in it is what
+    # has_specification answers from
+    for fi in P.all_functions():
+        if fi.cls is None or fi.cls.name not in family or fi.name == "pruned_dict":
+            continue
+        for n in walk_local(fi.node):
+            if isinstance(n, ast.Subscript) and isinstance(n.ctx, ast.Load) and _is_pruned_dict(fi.node, n.value):
+                key = norm(n.slice)
+                gs = {(norm(e), p_) for e, p_ in C.flatten_guards(C.guards(fi.node, n))}
+                if not any(p_ and t.startswith(f"{key} in ") for t, p_ in gs):
+                    ctx.violation("K5", n, f"{fi.qualname} reads `{norm(n)[:60]}` by subscript: the pruned dictionary is a defaultdict, so asking about a class that is not in it "
+                                  "puts it there, and has_specification answers True from then on")
     # shape of the property
     pd = P.need_method("RuleDBBase", "pruned_dict", own=True)
     ctx.analysed(pd)
